@@ -58,6 +58,7 @@ type Exec struct {
 	curFrame      *Frame
 	noSafety      bool
 	fpUF          bool
+	specBits      bool // contract equality on floats is identity of the value (NaN equals NaN)
 	epochInfo     map[int]epochInfo
 	ifacePayload  map[string]ifaceRec
 	heldAtEntry   map[string]bool
@@ -595,7 +596,7 @@ func (ex *Exec) mergeWith(g string, a, b *State) *State {
 	sort.Strings(ks)
 	if a.epoch != b.epoch {
 		ex.epochs++
-		ex.epochInfo[ex.epochs] = epochInfo{parent: a.epoch, all: true}
+		ex.epochInfo[ex.epochs] = epochInfo{parent: a.epoch, all: true, isMerge: true, mergeA: a.epoch, mergeB: b.epoch, mergeG: g}
 		n.epoch = ex.epochs
 	}
 	for _, k := range ks {
